@@ -100,8 +100,12 @@ func permute[T any](t *rapid.T, label string, in []T) []T {
 }
 
 func genSchema(t *rapid.T) *schema {
+	return genSchemaOf(t, subset(t, "metrics", metricPool, 1, 4))
+}
+
+func genSchemaOf(t *rapid.T, metrics []uint32) *schema {
 	s := &schema{Fields: map[uint32][]fieldDef{}, Series: map[uint32][]uint32{}, hot: map[uint32][2]int{}}
-	s.Metrics = subset(t, "metrics", metricPool, 1, 4)
+	s.Metrics = metrics
 	for _, m := range s.Metrics {
 		lbl := fmt.Sprintf("m%d", m)
 		ids := subset(t, lbl+"fieldIDs", fieldIDPool, 1, 5)
@@ -272,8 +276,14 @@ func genFileMetric(t *rapid.T, sc *schema, metricID uint32, lbl string) *fileMet
 
 func genFile(t *rapid.T, sc *schema, fileNo int) *fileSpec {
 	lbl := fmt.Sprintf("f%d", fileNo)
+	return genFileOf(t, sc, fileNo, subset(t, lbl+"metrics", sc.Metrics, 1, len(sc.Metrics)))
+}
+
+// genFileOf generates one flushed file holding exactly the given metrics (ascending).
+func genFileOf(t *rapid.T, sc *schema, fileNo int, metrics []uint32) *fileSpec {
+	lbl := fmt.Sprintf("f%d", fileNo)
 	f := &fileSpec{}
-	for _, m := range subset(t, lbl+"metrics", sc.Metrics, 1, len(sc.Metrics)) {
+	for _, m := range metrics {
 		f.Metrics = append(f.Metrics, genFileMetric(t, sc, m, fmt.Sprintf("%sm%d", lbl, m)))
 	}
 	return f
@@ -348,6 +358,12 @@ func (e *env) observe() (*state, *layout) {
 	}, e.querySeries(), ev.Known(SigSingleFieldBlock))
 	if err != nil {
 		e.fatalf("reading the family failed: %v", err)
+	}
+	if st.RepeatedLookups > 0 {
+		e.classes["lookup-repeated"] = true
+	}
+	if st.CoveredByTwoLevel1Ranges > 0 {
+		e.classes["metric-covered-by-2-level1-ranges"] = true
 	}
 	return st, lay
 }
@@ -453,6 +469,23 @@ func (e *env) compact(force bool) {
 	}
 	if newFiles > 1 {
 		e.classes["split-output"] = true
+	}
+	// level-1 inputs are picked per level-0 FILE range (version.PickL0Compaction): a level-1 file
+	// between two far-apart level-0 files is left alone and the output's key range spans it
+	for _, old := range layBefore.level1() {
+		if _, kept := layAfter.FileLevel[old.Number]; !kept || layBefore.Level0 < 2 {
+			continue
+		}
+		e.classes["level1-file-untouched-by-merge"] = true
+		for _, nf := range layAfter.level1() {
+			if _, isOld := layBefore.FileLevel[nf.Number]; !isOld && nf.overlaps(old) {
+				e.classes["output-range-spans-untouched-level1-file"] = true
+				e.nonTriv = true
+			}
+		}
+	}
+	if layAfter.level1RangesOverlap() {
+		e.classes["level1-key-ranges-intersect"] = true
 	}
 	// fields present in only some of the inputs
 	for id, mi := range before.Metrics {
